@@ -361,6 +361,26 @@ fn main() {
         result["loops"] = serde_json::Value::Array(loops);
         result["dropped_attrs"] = serde_json::json!(dropped);
     }
+    if !f.is_fn && rules.iter().any(|r| r == "R10strip") {
+        // drop every attribute of an extracted enum/struct and of its variants/fields
+        // (derive lists, thiserror's #[error(..)], #[repr(C)], doc comments): no run-time meaning
+        let mut edits = Vec::new();
+        if let Ok(en) = syn::parse_str::<syn::ItemEnum>(&work) {
+            for a in &en.attrs { edits.push(Edit { range: range_of(a), rep: String::new(), rule: "R10strip".into() }); }
+            for v in &en.variants {
+                for a in &v.attrs { edits.push(Edit { range: range_of(a), rep: String::new(), rule: "R10strip".into() }); }
+                for fl in v.fields.iter() { for a in &fl.attrs { edits.push(Edit { range: range_of(a), rep: String::new(), rule: "R10strip".into() }); } }
+            }
+        } else if let Ok(st) = syn::parse_str::<syn::ItemStruct>(&work) {
+            for a in &st.attrs { edits.push(Edit { range: range_of(a), rep: String::new(), rule: "R10strip".into() }); }
+            for fl in st.fields.iter() { for a in &fl.attrs { edits.push(Edit { range: range_of(a), rep: String::new(), rule: "R10strip".into() }); } }
+        }
+        let n = edits.len() as u64;
+        work = apply_edits(&work, edits);
+        let mut fired2: BTreeMap<String, u64> = serde_json::from_value(result["fired"].clone()).unwrap_or_default();
+        *fired2.entry("R10strip".into()).or_insert(0) += n;
+        result["fired"] = serde_json::json!(fired2);
+    }
     if !f.is_fn && rules.iter().any(|r| r == "R10pub") {
         // widen field visibility of an extracted struct (Verus treats a struct with private
         // fields as opaque in contracts); visibility has no run-time meaning
